@@ -150,6 +150,54 @@ fn gen_limb_apart(out: &mut Out) {
   }
 }
 
+/// The random share point under chosen draws of the random source: 0 (must be redrawn), then 1, -1, -2, 2^128: the
+/// share is never issued at x = 0 (where its value is the secret itself)
+pub fn gen_forced_points(out: &mut Out) {
+  use ff::Field;
+  let secret = le24(0, 0x5ec2e7);
+  let t = 2u32;
+  let one = star_sharks::Fp::ONE;
+  let draws: Vec<(&str, Vec<star_sharks::Fp>)> = vec![
+    ("0, then 1", vec![star_sharks::Fp::ZERO, one]),
+    ("0, 0, then -1", vec![star_sharks::Fp::ZERO, star_sharks::Fp::ZERO, -one]),
+    ("-1", vec![-one]),
+    ("-2", vec![-one - one]),
+    ("1", vec![one]),
+    ("2^128", vec![crate::g_fp::fp_of(&le24(1, 0)).unwrap()]),
+  ];
+  for (what, ds) in draws {
+    let mut ws: Vec<u64> = vec![7, 0, 0];
+    for d in &ds {
+      ws.extend(words_for(d));
+    }
+    for _ in 0..12 {
+      ws.extend([1u64, 0, 0]);
+    }
+    let mut rng = ScriptRng::new(ws.clone());
+    let dealt = guarded(|| match Sharks(t).dealer_rng(&secret, &mut rng) {
+      Ok(mut ev) => {
+        let its: Vec<Share> = (&mut ev).take(2).collect();
+        let g = ev.gen(&mut rng);
+        Some((its, g))
+      }
+      Err(_) => None,
+    });
+    let case = format!("sharks.deal {} {} {} {}", t, hex(&secret), 2, words_hex(&ws));
+    match dealt {
+      Some(Some((its, g))) => {
+        let genc = Vec::from(&g);
+        let v = if genc[..24] == [0u8; 24] || genc[24..48] == secret[..] {
+          Err(format!("random source draws {}: the share is issued at x = 0 / carries the secret as its value", what))
+        } else {
+          Ok(())
+        };
+        out.case(case, format!("ok {} gen={}", its.iter().map(|s| hex(&Vec::from(s))).collect::<Vec<_>>().join(","), hex(&genc)), v);
+      }
+      _ => out.case(case, "err".into(), Err("dealer refused an in-range secret".into())),
+    }
+  }
+}
+
 /// The dealt shares through the iterator adaptors (`nth`, `skip`, `step_by`) instead of plain stepping: the share that
 /// comes out is the one at the position counted from the start, never x = 0, never a point twice.
 fn gen_adaptors(out: &mut Out) {
@@ -238,6 +286,7 @@ pub fn gen(seed: u64, thorough: bool, only: Option<u64>, out: &mut Out) {
     gen_limb_apart(out);
     gen_adaptors(out);
     gen_bad_chunks(out);
+    gen_forced_points(out);
   }
   let groups: u64 = if thorough { 500 } else { 60 };
   let lat = lattice();
